@@ -61,7 +61,7 @@ def gen(rng, tier, no, wide=False):
         ids = [i + 33000 for i in ids]       # event ids beyond the range of a 16-bit integer
     events = [[i, s[0] + off, s[1]] for i, s in zip(ids, spans)]
     rng.shuffle(events)      # row order of the frame
-    case = {"cfg": {"grid": g}, "ranks": {}, "events": events, "params": {"via_trace": rng.random() < 0.3, "tid": rng.choice([1, 1, 2, 3, 7, 100, 31234, 40961, 3727853]), "two_ranks": rng.random() < 0.5}}
+    case = {"cfg": {"grid": g}, "ranks": {}, "events": events, "params": {"via_trace": rng.random() < 0.3, "tid": rng.choice([1, 1, 2, 3, 7, 100, 31234, 40961, 3727853]), "two_ranks": rng.random() < 0.5, "frac": rng.random() < 0.15}}
     return case
 
 
@@ -123,6 +123,19 @@ def observe(case):
         canon["new"] = _canon_nodes(new.get_nodes(), None)
     except Exception as e:  # noqa: BLE001
         canon["new"] = "raises " + C.exc_name(e) + ": " + str(e)[:80]
+    if case["params"].get("frac"):
+        # the same family at one eighth of the time scale (fractional microseconds, as with HTA_DISABLE_NS_ROUNDING=1):
+        # nesting does not depend on the unit, so parents and depths must be the same
+        try:
+            df = _frame(ev, tid)
+            df["ts"] = df["ts"] / 8.0
+            df["dur"] = df["dur"] / 8.0
+            st = TraceSymbolTable()
+            st.add_symbols(["x"])
+            newf = NEW.CallStackGraph(df, NEW.CallStackIdentity(0, 1, tid), pd.DataFrame(columns=["cpu_index", "gpu_index"]), df, st)
+            canon["new_frac"] = _canon_nodes(newf.get_nodes(), None)
+        except Exception as e:  # noqa: BLE001
+            canon["new_frac"] = "raises " + C.exc_name(e) + ": " + str(e)[:80]
     # comparators on all token pairs of a sample of the family
     toks = _tokens(ev[:6])
     po = sorted({e[1] for e in ev if e[2] > 0})
@@ -253,6 +266,9 @@ def oracle(case, obs) -> List[str]:
     for k in ("old", "new", "callgraph", "callgraph_nodes"):
         if k in c:
             out += _spec_violations(case["events"], c[k], k)
+    if "new_frac" in c and not isinstance(c.get("new"), str) and c["new_frac"] != c["new"]:
+        d = c["new_frac"] if isinstance(c["new_frac"], str) else [(a, b) for a, b in zip(c["new_frac"], c["new"]) if a != b][:4]
+        out.append(f"new builder at one eighth of the time scale (fractional times): [id, parent, depth] fractional vs integer {d}")
     return out
 
 
